@@ -16,6 +16,7 @@ import (
 	"go.etcd.io/bbolt/internal/common"
 	fl "go.etcd.io/bbolt/internal/freelist"
 	"go.etcd.io/bbolt/zverif/apix"
+	"go.etcd.io/bbolt/zverif/boltfmt"
 	"go.etcd.io/bbolt/zverif/par"
 	"go.etcd.io/bbolt/zverif/refmodel"
 	"go.etcd.io/bbolt/zverif/vsync"
@@ -25,6 +26,9 @@ import (
 type Seed struct {
 	Name string
 	Prog []apix.Op
+	// Expect states what the seed file must structurally contain for the seed to serve its purpose ("" = fine);
+	// a seed that misses its intent makes every exploration from it quietly vacuous, so it is a hard harness error
+	Expect func(st *boltfmt.State, pageSize int) string
 }
 
 // Scope describes one exploration.
@@ -166,6 +170,19 @@ func BuildSeed(sc *Scope) (*seedState, error) {
 	data, err := os.ReadFile(path)
 	if err != nil {
 		return nil, err
+	}
+	if sc.Seed.Expect != nil {
+		ps := sc.Cfg.PageSize
+		if ps == 0 {
+			ps = os.Getpagesize()
+		}
+		_, st, err := apix.DecodeBytes(data, ps)
+		if err != nil {
+			return nil, fmt.Errorf("seed %s: %v", sc.Seed.Name, err)
+		}
+		if msg := sc.Seed.Expect(st, ps); msg != "" {
+			return nil, fmt.Errorf("seed %s (%s) does not have the intended shape: %s", sc.Seed.Name, sc.Cfg.String(), msg)
+		}
 	}
 	s := &seedState{data: data, model: x.Committed}
 	seedCache[k] = s
